@@ -148,6 +148,7 @@ func init() {
 		f := args[1]
 		t := st.spawn(name, func() { st.callFunc(nil, token.NoPos, f, nil) })
 		t.spawnFn = f
+		st.startEager(t)
 		st.schedPoint("go")
 		return nil
 	})
